@@ -7,11 +7,12 @@
    - repeat traffic from an online, already announced host: no notification, state flags unchanged;
    - a frame from (m,k) that is not m's current online address: after Parse the frame's host is online with
      a notification pending and the frame is marked; Notify then emits the offline notifications of other
-     addresses of the same MAC FIRST and exactly ONE online notification for k LAST, no address twice;
+     addresses of the same MAC FIRST and exactly ONE notification for k LAST (online flag = tracked flag),
+     no address twice;
    - a purge emits exactly one offline notification per host that ages out, nothing else;
-   - refuted in one recorded class (finding c06-duplicate-dhcp-path-offline-offer): Notify through the
-     DHCP path for an offered IPv4 address whose host is offline with a notification pending emits the
-     same notification twice.
+   - the same holds through the DHCP path of Notify.  (Before the repair of session.go notify() the
+     statement failed when the notified host itself was offline with a notification pending: the host was
+     listed as its own "previous IP" and notified twice; former finding c06-duplicate-dhcp-path-offline-offer.)
    The history-level "exactly once" statement for the pure frame/purge discipline is the executable
    change-based expectation of Spec/HostTrackingNotif.v, compared with the implementation and the model
    on every generated history (spec column of kind t6c); it is not proved as a theorem (partial). *)
@@ -36,18 +37,35 @@ Theorem C06_parse_marks_transition : forall c s f now m k,
 Proof. exact rx_transition_proof. Qed.
 Print Assumptions C06_parse_marks_transition.
 
-(* partial: hypothesis [h_online h = true] excludes exactly the recorded class (there the notified host is offline) *)
-Theorem C06_online_once_and_order_partial : forall c s fr k h,
+(* Notify on a frame whose host has a notification pending: offline notifications of the MAC's OTHER addresses
+   first, then exactly one notification for the host, carrying its tracked online flag; no address twice.
+   (Full since the repair of session.go notify(); before it the statement failed when the notified host
+   itself was offline: former finding c06-duplicate-dhcp-path-offline-offer.) *)
+Theorem C06_notify_once_and_order : forall c s fr k h,
   Inv s -> lastf s = Some fr -> fr_host fr = Some k ->
-  hlookup k (hosts s) = Some h -> h_online h = true -> h_dirty h = true ->
+  hlookup k (hosts s) = Some h -> h_dirty h = true ->
   (List.length (chan s) + List.length (mac_hosts (h_mac h) s) < chan_cap)%nat ->
   exists offs n,
     chan (fst (step c s Notify)) = chan s ++ offs ++ [n] /\
-    nt_ip n = k /\ nt_online n = true /\ nt_mac n = h_mac h /\
+    nt_ip n = k /\ nt_online n = h_online h /\ nt_mac n = h_mac h /\
     Forall (fun x => nt_online x = false /\ nt_ip x <> k /\ nt_mac x = h_mac h) offs /\
     NoDup (map nt_ip offs).
-Proof. exact notify_online_once_proof. Qed.
-Print Assumptions C06_online_once_and_order_partial.
+Proof. exact notify_once_proof. Qed.
+Print Assumptions C06_notify_once_and_order.
+
+(* the same through the DHCP path (frame without host, classified DHCPv4, address from the MAC's IP4Offer) *)
+Theorem C06_notify_dhcp_path_once : forall c s fr e h,
+  Inv s -> lastf s = Some fr -> fr_host fr = None -> fr_dhcp4 fr = true ->
+  find_mac (fr_src fr) (macs s) = Some e -> is_valid (m_offer e) = true ->
+  hlookup (m_offer e) (hosts s) = Some h -> h_dirty h = true ->
+  (List.length (chan s) + List.length (mac_hosts (h_mac h) s) < chan_cap)%nat ->
+  exists offs n,
+    chan (fst (step c s Notify)) = chan s ++ offs ++ [n] /\
+    nt_ip n = m_offer e /\ nt_online n = h_online h /\ nt_mac n = h_mac h /\
+    Forall (fun x => nt_online x = false /\ nt_ip x <> m_offer e /\ nt_mac x = h_mac h) offs /\
+    NoDup (map nt_ip offs).
+Proof. exact notify_dhcp_path_once_proof. Qed.
+Print Assumptions C06_notify_dhcp_path_once.
 
 Theorem C06_purge_one_offline_each : forall c now order s,
   Inv s -> (List.length (chan s) + List.length order < chan_cap)%nat ->
@@ -57,10 +75,12 @@ Theorem C06_purge_one_offline_each : forall c now order s,
 Proof. exact purge_shape_proof. Qed.
 Print Assumptions C06_purge_one_offline_each.
 
-(* the recorded defect, with its witness history (replayed on the real code by the harness) *)
-Theorem C06_no_duplicate_refuted :
+(* regression example: the witness history of the repaired defect (state inside the former class
+   [known_C06_dup]) now yields one offline notification carrying the changed name *)
+Example C06_duplicate_fixed :
   let s := run std_cfg ex_s0 dup_history in
   known_C06_dup s = true /\ chan s = [] /\
-  exists n, chan (fst (step std_cfg s Notify)) = [n; n] /\ nt_ip n = IP4 3232235521 /\ nt_online n = false.
-Proof. exact dup_refuted. Qed.
-Print Assumptions C06_no_duplicate_refuted.
+  exists n, chan (fst (step std_cfg s Notify)) = [n] /\ nt_ip n = IP4 3232235521 /\ nt_online n = false /\
+            n_mdns (nt_names n) = 2.
+Proof. exact dup_fixed. Qed.
+Print Assumptions C06_duplicate_fixed.
